@@ -6,31 +6,52 @@ pub mod stdio;
 pub mod sync;
 pub mod thread;
 
+/// Names beyond the ones the engine uses today, so that an edit which adds one to the cfg'd-out
+/// `use std::{..}` block still compiles here (simulated where scheduling or time matters, std otherwise).
+pub mod extra {
+    pub use super::sync::MutexGuard;
+    pub use super::thread::{sleep, spawn, yield_now, Instant};
+    pub use ::std::collections::{BTreeMap, BTreeSet, HashSet, VecDeque};
+    pub use ::std::io::{self, BufRead, Read, Write};
+    pub use ::std::sync::atomic::Ordering::{self, AcqRel, Acquire, Release, SeqCst};
+    pub use ::std::sync::atomic::{AtomicI32, AtomicI64, AtomicU32, AtomicU64, AtomicU8, AtomicUsize};
+    pub use ::std::sync::{atomic, mpsc, Condvar, RwLock};
+    pub use ::std::time::{self, SystemTime};
+}
+
 pub mod uci_prelude {
+    pub use super::extra::*;
     pub use super::hashmap::HashMap;
     pub use super::stdio::stdin;
     pub use super::sync::{AtomicBool, Mutex, Relaxed};
     pub use super::thread::{self, JoinHandle};
-    pub use std::str::SplitAsciiWhitespace;
-    pub use std::sync::Arc;
-    pub use std::time::Duration;
+    pub use ::std::str::SplitAsciiWhitespace;
+    pub use ::std::sync::Arc;
+    pub use ::std::time::Duration;
 }
 
 pub mod search_prelude {
+    pub use super::extra::*;
     pub use super::hashmap::HashMap;
-    pub use super::sync::{AtomicBool, Relaxed};
+    pub use super::sync::{AtomicBool, Mutex, Relaxed};
+    pub use super::thread::{self, JoinHandle};
+    pub use ::std::sync::Arc;
+    pub use ::std::time::Duration;
 }
 
 pub mod autoplay_prelude {
+    pub use super::extra::*;
     pub use super::hashmap::HashMap;
-    pub use super::sync::{AtomicBool, Relaxed};
+    pub use super::sync::{AtomicBool, Mutex, Relaxed};
+    pub use super::thread::{self, JoinHandle};
     pub use ::std::sync::Arc;
     pub use ::std::time::Duration;
     /// `autoplay.rs` writes `std::thread::spawn` / `std::thread::sleep` in full; this module
-    /// shadows the extern crate name inside that file.
+    /// shadows the extern crate name inside that file. Everything else of `std` stays reachable.
     pub mod std {
+        pub use ::std::{cmp, collections, fmt, io, iter, mem, ops, str, string, sync, time, vec};
         pub mod thread {
-            pub use crate::verif_shim::thread::{sleep, spawn};
+            pub use crate::verif_shim::thread::{sleep, spawn, yield_now, JoinHandle};
         }
     }
 }
